@@ -220,7 +220,7 @@ pub fn run_proc(plan: &ProcPlan, verif: &str) -> ProcRecord {
                         if f[1] == "close" || f[1] == "fstat" {
                             continue;
                         }
-                        rec.events.push(ShimEvent { op: f[1].to_string(), path: f[2].to_string(), resolved, ret: f[5].parse().unwrap_or(0), errno: f[6].parse().unwrap_or(0), fault: f[7] == "1" });
+                        rec.events.push(ShimEvent { op: f[1].to_string(), path: f[2].replace(root.as_str(), "<root>"), resolved, ret: f[5].parse().unwrap_or(0), errno: f[6].parse().unwrap_or(0), fault: f[7] == "1" });
                     }
                 }
             }
